@@ -324,10 +324,14 @@ def make_fs(scn, stats):
             self.pos += len(part)
             return len(part)
 
-    def textfile(ent):
+    class _Tty(io.TextIOWrapper):
+        def isatty(self):
+            return True
+
+    def textfile(ent, tty=False):
         raw = Raw(unb64(ent["bytes"]), ent.get("short_reads"), ent.get("fault") == "fs_eio_on_read")
         bufsize = 8 if ent.get("short_reads") else 8192
-        return io.TextIOWrapper(io.BufferedReader(raw, buffer_size=bufsize), encoding="utf-8")
+        return (_Tty if tty else io.TextIOWrapper)(io.BufferedReader(raw, buffer_size=bufsize), encoding="utf-8")
 
     def sim_open(path, mode="r", *a, **k):
         opened.append(path)
@@ -408,12 +412,9 @@ def execute(scn):
     out, err = io.StringIO(), io.StringIO()
     stdin = textfile(scn["fs"]["<stdin>"]) if scn["stdin"] else io.StringIO("")
     if scn["stdin"] and scn.get("stdin_tty"):
-        # the instance is typed / pasted at a terminal and ended with EOF: same bytes, but the stream says isatty()
-        class _Tty(io.TextIOWrapper):
-            def isatty(self):
-                return True
-        ent_ = scn["fs"]["<stdin>"]
-        stdin = _Tty(io.BufferedReader(io.BytesIO(unb64(ent_["bytes"]))), encoding="utf-8")
+        # the instance is typed / pasted at a terminal and ended with EOF: the same bytes and the same read faults,
+        # but the stream says isatty()
+        stdin = textfile(scn["fs"]["<stdin>"], tty=True)
         probe("stdin_is_a_terminal")
     argv = argv_of(scn)
     status = None
